@@ -64,6 +64,24 @@ theorem getTileArray_spec {α} (z : α) (M : Img α) (R C ro co tr tc : Int) (hr
     · rw [if_neg hin, if_neg (by omega)]
 
 
+/-- … and has the shape of a frame -/
+theorem getTileShape_spec (R C ro co tr tc : Int) (hr : 1 ≤ tr) (hc : 1 ≤ tc)
+    (h1 : 1 ≤ ro) (h2 : ro ≤ R) (h3 : 1 ≤ co) (h4 : co ≤ C) : getTileShape R C ro co tr tc = .ok (tr, tc) := by
+  unfold getTileShape
+  cases hb : tileArrayBounds ro co tr tc R C with
+  | error e => exfalso; unfold tileArrayBounds at hb; grind
+  | ok v =>
+    obtain ⟨r0, r1, c0, c1, pr, pc⟩ := v
+    have hh : r0 = ro - 1 ∧ r1 = min (ro - 1 + tr) R ∧ c0 = co - 1 ∧ c1 = min (co - 1 + tc) C ∧
+        pr = ro - 1 + tr - min (ro - 1 + tr) R ∧ pc = co - 1 + tc - min (co - 1 + tc) C := by
+      unfold tileArrayBounds at hb
+      grind
+    obtain ⟨rfl, rfl, rfl, rfl, rfl, rfl⟩ := hh
+    simp only
+    rw [if_neg (by omega), pyNorm_id _ _ (by omega) (by omega), pyNorm_id _ _ (by omega) (by omega),
+      pyNorm_id _ _ (by omega) (by omega), pyNorm_id _ _ (by omega) (by omega)]
+    congr 2 <;> omega
+
 /-- `mapM` in `Except`: a successful result has the same length and is pointwise the successful image -/
 theorem mapM_ok_spec {β γ} (f : β → Except ErrKind γ) : ∀ (l : List β) (l' : List γ), l.mapM f = .ok l' →
     l'.length = l.length ∧ ∀ (i : Nat) (x : β), l[i]? = some x → ∃ y, l'[i]? = some y ∧ f x = .ok y := by
@@ -154,6 +172,8 @@ theorem cutTilesAux_spec {α} (z : α) (M : Img α) (R C tr tc ch : Int) (offs :
         | ok t =>
           rw [hg] at h
           simp only at h
+          split at h
+          · simp at h
           cases hrec : cutTilesAux z M R C tr tc ch offs ks (base + 1) with
           | error e => simp [hrec] at h
           | ok v =>
@@ -371,7 +391,7 @@ theorem keepMask_spec {α} [BEq α] (z : α) (Ms : List (Int × Img α)) (R C tr
 
 theorem cutTilesAux_total {α} (z : α) (M : Img α) (R C tr tc ch : Int) (offs : List (Int × Int)) :
     ∀ (keep : List Bool) (base : Nat), keep.length = offs.length →
-    (∀ o ∈ offs, ∃ t, getTileArray z M R C o.2 o.1 tr tc = .ok t) →
+    (∀ o ∈ offs, (∃ t, getTileArray z M R C o.2 o.1 tr tc = .ok t) ∧ getTileShape R C o.2 o.1 tr tc = .ok (tr, tc)) →
     ∃ rows frs, cutTilesAux z M R C tr tc ch offs keep base = .ok (rows, frs) := by
   induction offs with
   | nil => intro keep base _ _; exact ⟨[], [], by unfold cutTilesAux; rfl⟩
@@ -384,12 +404,12 @@ theorem cutTilesAux_total {α} (z : α) (M : Img α) (R C tr tc ch : Int) (offs 
       unfold cutTilesAux
       cases k with
       | true =>
-        obtain ⟨t, ht⟩ := hg (co, ro) (by simp)
+        obtain ⟨⟨t, ht⟩, hsh⟩ := hg (co, ro) (by simp)
         obtain ⟨rows, frs, hrec⟩ := ih ks (base + 1) (by simpa using hl) (fun o ho => hg o (by simp [ho]))
         simp only [if_true]
         rw [ht]
-        simp only
-        rw [hrec]
+        simp only at hsh ⊢
+        rw [if_neg (by rw [hsh]; simp), hrec]
         exact ⟨_, _, rfl⟩
       | false =>
         simp only [Bool.false_eq_true, if_false]
@@ -398,7 +418,7 @@ theorem cutTilesAux_total {α} (z : α) (M : Img α) (R C tr tc ch : Int) (offs 
 theorem cutSegments_total {α} (z : α) (R C tr tc : Int) (offs : List (Int × Int)) :
     ∀ (Ms : List (Int × Img α)) (keep : List (List Bool)) (base : Nat), keep.length = Ms.length →
     (∀ (s : Nat) (k : List Bool), keep[s]? = some k → k.length = offs.length) →
-    (∀ m ∈ Ms, ∀ o ∈ offs, ∃ t, getTileArray z m.2 R C o.2 o.1 tr tc = .ok t) →
+    (∀ m ∈ Ms, ∀ o ∈ offs, (∃ t, getTileArray z m.2 R C o.2 o.1 tr tc = .ok t) ∧ getTileShape R C o.2 o.1 tr tc = .ok (tr, tc)) →
     ∃ rows frames, cutSegments z R C tr tc offs Ms keep base = .ok (rows, frames) := by
   intro Ms
   induction Ms with
@@ -467,13 +487,14 @@ theorem tileThenRead_sparse {α} [BEq α] [LawfulBEq α] (z : α) (Ms : List (In
   obtain ⟨g1, g2, g3, g4, g5, g6, g7, g8⟩ := stdRowCol_range_num hstd
   have hoffs := tileOffsets_eq tr tc R C hr hc hR hC
   -- every tile can be cut
-  have hget : ∀ m ∈ Ms, ∀ o ∈ (gridPos R C tr tc).map (fun p => (p.2, p.1)), ∃ t, getTileArray z m.2 R C o.2 o.1 tr tc = .ok t := by
+  have hget : ∀ m ∈ Ms, ∀ o ∈ (gridPos R C tr tc).map (fun p => (p.2, p.1)),
+      (∃ t, getTileArray z m.2 R C o.2 o.1 tr tc = .ok t) ∧ getTileShape R C o.2 o.1 tr tc = .ok (tr, tc) := by
     intro m _ o ho
     obtain ⟨p, hp, rfl⟩ := List.mem_map.mp ho
     obtain ⟨b1, b2, b3, b4⟩ := gridPos_in_matrix R C tr tc hr hc p hp
     obtain ⟨fr, hfr, _⟩ := getTileArray_spec z m.2 R C p.1 p.2 tr tc hr hc b1 b2 b3 b4
-    exact ⟨fr, hfr⟩
-  obtain ⟨keep, hkeep⟩ := keepMask_total z Ms R C tr tc _ omitEmpty hget
+    exact ⟨⟨fr, hfr⟩, getTileShape_spec R C p.1 p.2 tr tc hr hc b1 b2 b3 b4⟩
+  obtain ⟨keep, hkeep⟩ := keepMask_total z Ms R C tr tc _ omitEmpty (fun m hm o ho => (hget m hm o ho).1)
   obtain ⟨k1, k2, k3, _⟩ := keepMask_spec z Ms R C tr tc _ omitEmpty keep hkeep
   obtain ⟨rows, frames, hcs⟩ := cutSegments_total z R C tr tc _ Ms keep 0 k1 k2 hget
   obtain ⟨s1, s2, s3⟩ := cutSegments_spec z R C tr tc _ Ms keep 0 rows frames hcs
